@@ -507,7 +507,27 @@ func (b *builder) block(fr *frame, list []ast.Stmt) {
 
 func (b *builder) optional(fr *frame, f func()) {
 	a := b.pos()
+	n, rm := len(fr.defers), len(fr.returns)
 	f()
+	if len(fr.defers) > n {
+		// a defer registered inside a conditional block only runs when the block was entered.  The program is a linear
+		// list of operations with skip edges, so the deferred calls are run where the block ends (they stay inside the
+		// skipped region) instead of at the end of the function: the same order of lock operations whenever nothing
+		// lock-relevant follows the block - the binding check (SodLockTrace) reports it otherwise.  Not done when the
+		// block itself returns after registering (the return would have to run them and leave).
+		hoist := true
+		for k := rm; k < len(fr.returns); k++ {
+			if fr.returns[k].ndefers > n {
+				hoist = false
+			}
+		}
+		if hoist {
+			for i := len(fr.defers) - 1; i >= n; i-- {
+				fr.defers[i]()
+			}
+			fr.defers = fr.defers[:n]
+		}
+	}
 	b.eps(a, b.pos())
 }
 
@@ -623,6 +643,12 @@ func (b *builder) stmt(fr *frame, s ast.Stmt) {
 		b.eps(a, b.pos()) // or skip
 	case *ast.RangeStmt:
 		b.expr(fr, x.X)
+		if tv, ok := b.ex.pkg.TypesInfo.Types[x.X]; ok && tv.Type != nil {
+			if _, isChan := tv.Type.Underlying().(*types.Chan); isChan {
+				// ranging over a channel waits for whoever feeds it: a blocking step (SodLock: NoWaitUnderLock)
+				b.emit("recv", "chan", x.Pos())
+			}
+		}
 		a := b.pos()
 		b.block(fr, x.Body.List)
 		b.eps(b.pos(), a)
@@ -669,6 +695,12 @@ func (b *builder) expr(fr *frame, e ast.Expr) {
 		switch x := n.(type) {
 		case *ast.FuncLit:
 			return false // a closure that is only created, not called here
+		case *ast.UnaryExpr:
+			if x.Op == token.ARROW {
+				b.expr(fr, x.X)
+				b.emit("recv", "chan", x.Pos()) // a channel receive: a blocking step
+				return false
+			}
 		case *ast.SelectorExpr:
 			b.expr(fr, x.X)
 			b.access(fr, x, "rd")
@@ -774,7 +806,7 @@ func tla(list []*Program, race bool) string {
 	for i, p := range list {
 		ops := []string{}
 		for _, o := range p.Ops {
-			if o.Kind != "acc" {
+			if o.Kind != "acc" && o.Kind != "recv" {
 				mut[o.M] = true
 			}
 			if race {
